@@ -18,6 +18,7 @@ func specOpenOK(path string) bool {
 
 //@ func Exec
 //@ props C19 C16 C17 C09 C10
+//@ option no-global-writes
 //@ calls[trunc@C10+C19] os.OpenFile : arg1&(os.O_CREATE|os.O_TRUNC) == os.O_CREATE|os.O_TRUNC
 //@ exits[open@C19]   !specOpenOK(assemblyDst) ==> vcExitCode() == 17
 //@ exits[codes@C19]  vcExitCode() != 0
